@@ -87,4 +87,26 @@ class process_maze_rasterized_input_target:
         "C17.post.input": f"same_grid(result[0], {_post('final(g_in)')})",
         "C17.post.target": f"same_grid(result[1], {_post('final(g_tg)')})",
     }
+    result = T.GridT("int", [2, None, None, 3])
+    pure_result = True
+    props = ["C17"]
+
+
+RCFG = T.RecT("RasterizedMazeDatasetConfig", remove_isolated_cells=FLAG, extend_pixels=FLAG, endpoints_as_open=FLAG)
+RDS = T.RecT("RasterizedMazeDataset", cfg=RCFG, mazes=T.ListT(SOLVED_M))
+
+
+@contract(RZ, "RasterizedMazeDataset.__getitem__")
+class rasterized_getitem:
+    """item idx is the input/target pair of the idx-th maze, built with the dataset's own three configuration flags (each passed to its own parameter)"""
+    params = dict(self=RDS, idx=T.Int)
+    requires = ["0 <= idx", "idx < len(self.mazes)"] + [r.replace("maze.", "self.mazes[idx].").replace("maze,", "self.mazes[idx],").replace("(maze)", "(self.mazes[idx])")
+                                                        for r in process_maze_rasterized_input_target.requires]
+    ensures = {
+        "C17.item": "same_value(result, process_maze_rasterized_input_target(maze=self.mazes[idx], remove_isolated_cells=self.cfg.remove_isolated_cells,"
+        " extend_pixels=self.cfg.extend_pixels, endpoints_as_open=self.cfg.endpoints_as_open))",
+    }
+    # only the identity of the callee's result is needed here (its own postconditions speak about ghost images the caller cannot see)
+    uses_ensures = {"process_maze_rasterized_input_target": []}
+    options = dict(no_concrete=True)
     props = ["C17"]
